@@ -11,6 +11,7 @@
 package main
 
 import (
+	"syscall"
 	"encoding/json"
 	"fmt"
 	"net/url"
@@ -30,6 +31,7 @@ type table struct {
 	Faults map[string]string `json:"faults"`
 	Delay  int               `json:"delay_ms"`
 	Delays map[string]int    `json:"delays_ms"` // extra time a particular job takes
+	VmapMB map[string]int    `json:"vmap_mb"`   // address space (MB) a particular job maps without touching it
 }
 
 var chunkRe = regexp.MustCompile(`^chnk(\d+)(?:-u[0-9a-f]{10})?$`)
@@ -160,6 +162,12 @@ func main() {
 		}
 	}
 	emit("StageBegin", "job", key, "known", inv != nil, "argsOk", argsOk, "detail", detail, "md", rel, "cdefs", cdefs)
+	if n := tb.VmapMB[key]; n > 0 {
+		// reserve address space only: no memory is used
+		if _, err := syscall.Mmap(-1, 0, n<<20, syscall.PROT_NONE, syscall.MAP_ANON|syscall.MAP_PRIVATE|syscall.MAP_NORESERVE); err != nil {
+			emit("Note", "job", key, "text", "mmap: "+err.Error())
+		}
+	}
 	if tb.Delay > 0 {
 		time.Sleep(time.Duration(tb.Delay) * time.Millisecond)
 	}
